@@ -444,7 +444,7 @@ fn payload_key(req: &str) -> String {
     req.replacen("c12.spec.", "c12.", 1)
 }
 
-pub fn run(req: &str) -> Outcome {
+fn run_cached(req: &str) -> Outcome {
     use std::cell::RefCell;
     thread_local! {
         static LAST: RefCell<Option<(String, String, Vec<String>)>> = const { RefCell::new(None) };
@@ -460,6 +460,68 @@ pub fn run(req: &str) -> Outcome {
         LAST.with(|l| *l.borrow_mut() = Some((key, out.imp.clone(), out.t3.clone())));
     }
     out
+}
+
+/// The implementation runs on a worker thread so that a request on which it does not return (the
+/// word scanner restarts itself; a restart that makes no progress is a hang, not a panic) becomes an
+/// observable outcome instead of a check that times out: answer `panic` plus an oracle failure.
+/// The stuck worker is abandoned and a fresh one started; after `MAX_HANGS` hangs the remaining
+/// requests are answered `hang-skipped` (each hang costs `HANG_SECS` and a spinning thread).
+const HANG_SECS: u64 = 5;
+const MAX_HANGS: usize = 4;
+
+struct Worker {
+    tx: std::sync::mpsc::Sender<String>,
+    rx: std::sync::mpsc::Receiver<Result<(String, Vec<String>), ()>>,
+}
+
+fn spawn_worker() -> Worker {
+    let (tx, wrx) = std::sync::mpsc::channel::<String>();
+    let (wtx, rx) = std::sync::mpsc::channel();
+    std::thread::Builder::new()
+        .stack_size(256 << 20)
+        .spawn(move || {
+            for req in wrx {
+                let o = h_util::guarded(|| run_cached(&req)).map(|o| (o.imp, o.t3));
+                if wtx.send(o).is_err() {
+                    break;
+                }
+            }
+        })
+        .expect("worker thread");
+    Worker { tx, rx }
+}
+
+pub fn run(req: &str) -> Outcome {
+    use std::cell::{Cell, RefCell};
+    thread_local! {
+        static WORKER: RefCell<Option<Worker>> = const { RefCell::new(None) };
+        static HANGS: Cell<usize> = const { Cell::new(0) };
+    }
+    if HANGS.with(Cell::get) >= MAX_HANGS {
+        return Outcome::new("hang-skipped");
+    }
+    let res = WORKER.with(|w| {
+        let mut w = w.borrow_mut();
+        let worker = w.get_or_insert_with(spawn_worker);
+        worker.tx.send(req.to_owned()).expect("worker alive");
+        let r = worker.rx.recv_timeout(std::time::Duration::from_secs(HANG_SECS));
+        if r.is_err() {
+            *w = None; // abandon the stuck thread
+        }
+        r
+    });
+    match res {
+        Ok(Ok((imp, t3))) => Outcome { imp, t3 },
+        Ok(Err(())) => panic!("implementation panicked"),
+        Err(_) => {
+            HANGS.with(|h| h.set(h.get() + 1));
+            Outcome {
+                imp: "panic".into(),
+                t3: vec![format!("the implementation did not return within {HANG_SECS} s on this request (hang)")],
+            }
+        }
+    }
 }
 
 fn run_uncached(req: &str) -> Outcome {
